@@ -15,6 +15,7 @@ fn template(tag: &str) -> (&'static str, &'static str) {
         "32B" | "33B" | "71F" | "71G" => ("{C}", ""),
         "34F" => ("{C}D", ""),
         "37H" => ("C", ""),
+        "37HN" => ("CN", ""),
         "60F" | "60M" | "62F" | "62M" | "64" | "65" => ("C240719{C}", ""),
         "61" => ("240719D", "NTRFREF123456"),
         "90C" | "90D" => ("5{C}", ""),
@@ -98,16 +99,21 @@ pub fn run(args: &[String]) -> i32 {
     let mut violations: BTreeMap<String, (u64, Value)> = BTreeMap::new();
     let mut panics: BTreeMap<String, u64> = BTreeMap::new();
     let mut samples: Vec<Value> = Vec::new();
+    let mut c02: BTreeMap<String, (u64, Value)> = BTreeMap::new();
+    let mut c02_evaluated = 0u64;
     for line in f.lines().map_while(|l| l.ok()) {
         let c: Value = match serde_json::from_str(&line) { Ok(v) => v, Err(_) => continue };
-        let tag = c["f"].as_str().unwrap_or("");
+        let ftag = c["f"].as_str().unwrap_or("");
+        // "37HN" = field 37H written with its sign letter N: the value is the negative of the digits
+        let tag = if ftag == "37HN" { "37H" } else { ftag };
+        let signed = ftag == "37HN";
         let sp = c["sp"].as_str().unwrap_or("");
         let n = c["n"].as_u64().unwrap_or(0) as usize;
         let fr = c["fr"].as_u64().unwrap_or(0) as usize;
         let prec = c["prec"].as_u64().unwrap_or(2);
         let want = c["accept"].as_bool().unwrap_or(false);
         let amount = spell(sp, n, fr);
-        let (pre, suf) = template(tag);
+        let (pre, suf) = template(ftag);
         let code = c["code"].as_str().unwrap_or("");
         let cur = if code.is_empty() { currency_for(prec) } else { code };
         let content = format!("{}{}{}", pre.replace("{C}", cur), amount, suf);
@@ -116,14 +122,14 @@ pub fn run(args: &[String]) -> i32 {
         let mut hit = |sig: String| { let e = violations.entry(sig).or_insert((0, replay.clone())); e.0 += 1; };
         let digits_class = if !code.is_empty() { format!("currency={}", code) } else if n == 0 { "n=0".to_string() } else if n + 1 + fr > c["maxlen"].as_u64().unwrap_or(15) as usize { "too-long".into() } else if c["cur"].as_bool().unwrap_or(false) && fr as u64 > prec { format!("frac>{}", prec) } else { "fits".into() };
         match guarded(|| parse_by_tag(tag, &content)) {
-            Err(p) => { *panics.entry(format!("C06|Field{}|panic|{}", tag, p.split(':').next().unwrap_or(""))).or_insert(0) += 1; }
+            Err(p) => { *panics.entry(format!("C06|Field{}|panic|{}", ftag, p.split(':').next().unwrap_or(""))).or_insert(0) += 1; }
             Ok(None) => {}
             Ok(Some(Err(_))) => {
-                if want { hit(format!("C06|Field{}|decimal-rejected|sp={}|prec={}|{}", tag, sp, prec, digits_class)); }
+                if want { hit(format!("C06|Field{}|decimal-rejected|sp={}|prec={}|{}", ftag, sp, prec, digits_class)); }
             }
             Ok(Some(Ok(o))) => {
                 if !want {
-                    hit(format!("C06|Field{}|non-decimal-accepted|sp={}|{}", tag, sp, digits_class));
+                    hit(format!("C06|Field{}|non-decimal-accepted|sp={}|{}", ftag, sp, digits_class));
                     continue;
                 }
                 accepted_cases += 1;
@@ -134,38 +140,55 @@ pub fn run(args: &[String]) -> i32 {
                 let ser_amount = body.strip_prefix(pre_c.as_str()).map(|r| r.strip_suffix(suf).unwrap_or(r).to_string());
                 match ser_amount.as_deref().and_then(canon_decimal) {
                     Some(v) if Some(&v) == expect.as_ref() => {}
-                    _ => hit(format!("C06|Field{}|value-changed|mt|prec={}|frac={}", tag, prec, fr)),
+                    _ => hit(format!("C06|Field{}|value-changed|mt|prec={}|frac={}", ftag, prec, fr)),
                 }
                 // ... and is itself accepted again, with the same value
                 let body_content = body.clone();
                 match guarded(|| parse_by_tag(tag, &body_content)) {
                     Ok(Some(Ok(o2))) => {
+                        // (C02 on the same family: the second parse equals the first, the text is a fixed point)
+                        c02_evaluated += 1;
+                        if o2.json != o.json {
+                            let e = c02.entry(format!("C02|Field{}|value-changed|amount:prec={}|frac={}", ftag, prec, fr)).or_insert((0, replay.clone()));
+                            e.0 += 1;
+                        } else if o2.ser != o.ser {
+                            let e = c02.entry(format!("C02|Field{}|not-fixed-point|amount:prec={}|frac={}", ftag, prec, fr)).or_insert((0, replay.clone()));
+                            e.0 += 1;
+                        }
                         let mut n2 = Vec::new();
                         numbers_in(&o2.json, &mut n2);
+                        if signed { n2 = n2.iter().map(|x| x.trim_start_matches('-').to_string()).collect(); }
                         if !n2.iter().any(|x| canon_decimal(x).as_ref() == expect.as_ref()) {
-                            hit(format!("C06|Field{}|value-changed|reparse|prec={}|frac={}", tag, prec, fr));
+                            hit(format!("C06|Field{}|value-changed|reparse|prec={}|frac={}", ftag, prec, fr));
                         }
                     }
-                    Ok(Some(Err(_))) => hit(format!("C06|Field{}|serialised-amount-refused|sp={}|prec={}|{}", tag, sp, prec, digits_class)),
+                    Ok(Some(Err(_))) => {
+                        c02_evaluated += 1;
+                        let e = c02.entry(format!("C02|Field{}|reparse-rejected|amount:sp={}|prec={}|{}", ftag, sp, prec, digits_class)).or_insert((0, replay.clone()));
+                        e.0 += 1;
+                        hit(format!("C06|Field{}|serialised-amount-refused|sp={}|prec={}|{}", ftag, sp, prec, digits_class))
+                    }
                     _ => {}
                 }
                 // JSON: a finite, non-negative number with the same value
                 let mut nums = Vec::new();
                 numbers_in(&o.json, &mut nums);
+                if signed { nums = nums.iter().map(|x| x.trim_start_matches('-').to_string()).collect(); }
                 if !nums.iter().any(|x| canon_decimal(x).as_ref() == expect.as_ref()) {
-                    hit(format!("C06|Field{}|value-changed|json|prec={}|frac={}|n={}", tag, prec, fr, if n >= 14 { "14+" } else { "<14" }));
+                    hit(format!("C06|Field{}|value-changed|json|prec={}|frac={}|n={}", ftag, prec, fr, if n >= 14 { "14+" } else { "<14" }));
                 }
                 // JSON round trip reproduces the MT text
                 match &o.via_json {
                     Ok((s2, _, _)) if s2 == &o.ser => {}
-                    _ => hit(format!("C06|Field{}|json-roundtrip-differs|prec={}", tag, prec)),
+                    _ => hit(format!("C06|Field{}|json-roundtrip-differs|prec={}", ftag, prec)),
                 }
                 if samples.len() < 4 && n >= 12 { samples.push(json!({"tag": tag, "content": content, "ser": o.ser, "json": o.json})); }
             }
         }
     }
     let violations: Vec<Value> = violations.iter().map(|(sig, (n, r))| json!({"sig": sig, "count": n, "replay": r})).collect();
-    std::fs::write(out_path, json!({"evaluated": evaluated, "accepted_and_compared": accepted_cases, "violations": violations,
+    let c02v: Vec<Value> = c02.iter().map(|(sig, (n, r))| json!({"sig": sig, "count": n, "replay": r})).collect();
+    std::fs::write(out_path, json!({"evaluated": evaluated, "accepted_and_compared": accepted_cases, "violations": violations, "c02_violations": c02v, "c02_evaluated": c02_evaluated,
         "panics_noted_for_C07": panics, "samples": samples}).to_string()).expect("write");
     0
 }
